@@ -317,6 +317,14 @@ func genC14(r *rand.Rand, n int, emit func(string)) {
 		for j := 0; j < r.Intn(4); j++ {
 			doc[ordinaryName(r)] = SimpleValue(r, 2)
 		}
+		if r.Intn(6) == 0 {
+			// names that need escaping: as a JSON-pointer token (/ and ~) or inside a JSON string (quote, backslash, control)
+			for j := 0; j < 1+r.Intn(2); j++ {
+				name := pick(r, []string{"a/b", "a~1b", "~", "/", "a\\b", "q\"uote", "tab\there", "~0", "x/", "m~n", "/first", "~~", "a/b/c", "new\nline", "<&>"})
+				doc[name] = SimpleValue(r, 1)
+			}
+			label = "doc/names-needing-escapes"
+		}
 		switch r.Intn(12) {
 		case 0:
 			doc["id"] = "did:example:123"
